@@ -165,6 +165,15 @@ class MultipartDecoder:
 
         return min(last_nl, last_cr)
 
+    def partial_boundary_start(self) -> int:
+        """
+        Index from which the buffer could still turn into "<line break>--boundary"
+        once more data arrives; everything before it is certainly part data.
+        """
+        search_start = max(0, len(self.buffer) - (len(self.boundary) + 4))
+        match = LINE_BREAK_RE.search(self.buffer, search_start)
+        return len(self.buffer) if match is None else match.start()
+
     def receive_data(self, data: Optional[bytes]) -> None:
         if data is None:
             self.complete = True
@@ -206,10 +215,11 @@ class MultipartDecoder:
         elif self.state == State.DATA:
             if self.buffer.find(b"--" + self.boundary) == -1:
                 # No complete boundary in the buffer, but there may be
-                # a partial boundary at the end. As the boundary
-                # starts with either a nl or cr find the earliest and
-                # return up to that as data.
-                data_length = del_index = self.last_newline()
+                # a partial boundary at the end. It is shorter than
+                # "\r\n--boundary", so only a line break that close to the
+                # end has to be kept back; holding everything after the
+                # last line break would buffer a whole upload in memory.
+                data_length = del_index = self.partial_boundary_start()
                 more_data = True
             else:
                 match = self.boundary_re.search(self.buffer)
